@@ -23,8 +23,9 @@ import sys
 import time
 from fractions import Fraction
 
-import vlib
-import models
+sys.path.insert(0, os.path.dirname(os.path.dirname(os.path.abspath(__file__))))  # tools/ (when run as the replay script)
+import vlib  # noqa: E402
+import models  # noqa: E402
 
 EXE = "wLayout"
 FAMS = ["conv_chain", "conv_chain_big", "single", "diamond", "mixed_cpu", "lut_heavy", "conv_chain_big", "single"]
@@ -1005,8 +1006,9 @@ WITNESS_FIELDS = ["ifm_bitdepth", "op_type_transpose_flip", "accelerator_ncores"
 PIPELINE_ROUTE = {
     "ifm_bitdepth": "one model in which an int8 CONV_2D and an int16 CONV_2D share the weight tensor (the reader clones it, value_id kept)",
     "op_type_transpose_flip": "one model in which a CONV_2D and a TRANSPOSE_CONV share the weight tensor",
-    "accelerator_ncores": "two vela.main() calls in one process (ethos-u55-128, then ethos-u65-512) on a model with MEAN: the depthwise "
-                          "weights get a value-derived value_id (create_equivalence_id is an lru_cache), which survives the first compilation",
+    "accelerator_ncores": "two vela.main() calls in one process (ethos-u55-128, then ethos-u65-512) on a model with MEAN, whose depthwise "
+                          "weights get a value-derived value_id (create_equivalence_id is an lru_cache) -- reachable only while "
+                          "compiler_driver does not clear the process-wide caches between compilations (it does since cea8897); probed every run",
     "accelerator_ublock": None,
 }
 
@@ -1320,6 +1322,8 @@ def run(tier):
                                         dict(not_reached="no route through the compiler known: not reported"))
         if w.get("stale_differs_from_fresh") and reach:
             confirmed.append(f)
+        if p and p.get("error"):
+            res.notes.append("compiler-level replay for %s could not run: %s" % (f, p["error"][-300:]))
     odd = None
     if okx:
         o = models.run("channels", [[2, 8, 16, 8, 3, 0, 3, 8]], exe_name=EXE)[0]
